@@ -59,6 +59,7 @@ type Exec struct {
 	Gauge0                  float64 // gauge value when the case started
 	lat                     map[int]*latRun
 	G0                      int           // goroutines in the process when the case started
+	timePassed              bool          // a frame / delay elapsed since the frame workers were last counted
 	Idle                    time.Duration // idle timeout the server was configured with (0 = not modelled)
 	sentAt                  time.Time
 	optional                map[int]bool                  // recipients that may or may not get the relays of the current event
@@ -1333,6 +1334,7 @@ func (e *Exec) advance(d time.Duration) {
 	e.stepTags = ""
 	t0 := time.Now()
 	e.D.Advance(d)
+	e.timePassed = true
 	t1 := time.Now()
 	e.collect()
 	fr := e.D.Frame()
